@@ -225,7 +225,9 @@ def run(ctx):
         chtab = tabs.get("channels")
         if isinstance(chtab, dict):
             chtab = {k: set(v) if isinstance(v, (list, tuple, set)) else v for k, v in chtab.items()}
-        ok = chtab == {"write": {"aw", "w", "b"}, "read": {"ar", "r"}}
+        # (the channel table is an intermediate: judged when present, the direction table below is what the wiring uses)
+        ok = chtab == {"write": {"aw", "w", "b"}, "read": {"ar", "r"}} or (chtab is None and "channels" not in
+                                                                                {x.id for x in ast.walk(init) if isinstance(x, ast.Name)})
         ctx.ob("L3", rel, dcls, "channel table write={aw,w,b}, read={ar,r}", ok, "" if ok else f"channels = {chtab}", init)
         dd = tabs.get("directions")
         ok = dd == {"aw": "write", "w": "write", "b": "write", "ar": "read", "r": "read"}
